@@ -425,6 +425,7 @@ class Walker:
         self.notes = []
         self.inline_depth = 0
         self.root = func
+        self._in_recheck = False
         self._sc = []          # conditions assumed by short-circuit evaluation at the current expression
         # the peer operand of a binary sketch method (merge(self, other)): same class as self by contract
         self.peers = {"other"}
@@ -1031,6 +1032,37 @@ class Walker:
 
     # -- facts ----------------------------------------------------------
     def assume(self, st, c):
+        """Add `c` to the state; afterwards earlier disequalities / disjunctions are re-examined (a flag set from one comparison and
+        tested again later must not leave an infeasible path alive)."""
+        self._assume(st, c)
+        if st.dead or self._in_recheck or not (st.nes or st.ors) or c[0] in ("atom", "ne", "true"):
+            return
+        self._in_recheck = True
+        try:
+            for l in st.nes:
+                if self.P.prove_le0(l, st.facts) and self.P.prove_le0(-l, st.facts):
+                    st.dead = True
+                    return
+            ors = list(st.ors)
+            for o in ors:
+                alive = []
+                for x in o[1]:
+                    t = st.copy()
+                    self._assume(t, x)
+                    if not t.dead:
+                        alive.append(x)
+                if not alive:
+                    st.dead = True
+                    return
+                if len(alive) == 1 and len(o[1]) > 1:
+                    st.ors = [y for y in st.ors if y is not o]
+                    self._assume(st, alive[0])
+                    if st.dead:
+                        return
+        finally:
+            self._in_recheck = False
+
+    def _assume(self, st, c):
         k = c[0]
         if k == "le":
             l = c[1]
@@ -1082,20 +1114,20 @@ class Walker:
             st.nes.append(l)
         elif k == "and":
             for x in c[1]:
-                self.assume(st, x)
+                self._assume(st, x)
                 if st.dead:
                     return
         elif k == "or":
             alive = []
             for x in c[1]:
                 t = st.copy()
-                self.assume(t, x)
+                self._assume(t, x)
                 if not t.dead:
                     alive.append(x)
             if not alive:
                 st.dead = True
             elif len(alive) == 1:
-                self.assume(st, alive[0])
+                self._assume(st, alive[0])
             else:
                 st.ors.append(("or", alive))
         elif k == "atom":
